@@ -53,6 +53,9 @@ type Scenario struct {
 	wdAt              int                 // step at which the clock jumps and an expired sweep races a live run (-1 never)
 	twinSpecs         []map[string]string // further own instances of the same DAG, started with these variable values
 	core              bool                // within the scope of the EngineCore model (journal carries the marker event 38)
+	staleEv           bool                // retry command executed while the completion event of the failed run is still queued behind a busy parser worker
+	cmdCrash          bool                // the worker dies after a retry command re-armed its target and before the command is cleared; restart
+	window            bool                // retry command executed between the failed run's last status write and its de-registration
 	dupPush           bool                // retry command processed while a pushed task has not yet stored 'running' and pushes queue up behind a busy worker
 	desc              string
 }
@@ -430,6 +433,27 @@ func genScenario(rng *Rng, kind string) *Scenario {
 		s.faultNth = 1 + rng.Intn(2)
 		s.faultMatch = "UpdateTaskIns"
 		s.faultMode = "fail"
+	case "staleev", "window", "cmdcrash":
+		// two own instances of a one-or-two-task DAG, one parser worker; the first task fails on its first attempt.
+		// staleev: the parser worker is held on the verdict patch of one instance while the other instance's failed
+		// task is retried - its completion event is handled only after the command re-initialised the instance.
+		// window: the failed run is held after its status write was applied and before it is de-registered.
+		s.tasks = s.tasks[:0]
+		s.tasks = append(s.tasks, taskSpec{id: "t1", action: "A"})
+		if rng.Chance(1, 2) {
+			s.tasks = append(s.tasks, taskSpec{id: "t2", action: "A", deps: []string{"t1"}})
+		}
+		s.scripts = map[string][]phaseScript{"t1/run": {{outcome: 1}, {}, {}}}
+		s.twinSpecs = []map[string]string{{"v": "2"}}
+		s.execWorkers = 2
+		s.parserWorkers = 1
+		s.retries, s.continues = 0, 0
+		s.staleEv = kind == "staleev"
+		s.window = kind == "window"
+		s.cmdCrash = kind == "cmdcrash"
+		if s.cmdCrash {
+			s.twinSpecs = nil
+		}
 	case "fault":
 		s.faultNth = 1 + rng.Intn(6)
 		s.faultMatch = []string{"PatchTaskIns", "PatchDagIns", "ListTaskInstance", "UpdateTaskIns", "PatchTaskIns"}[rng.Intn(5)]
@@ -658,6 +682,7 @@ func runScenario(w *World, rng *Rng, s *Scenario, maxSteps int) *runResult {
 		e.settle()
 	}
 	wdDone := false
+	dirPhase := 0
 	retried, postRetryCancel := false, false
 	steps := 0
 	closed := false
@@ -772,6 +797,58 @@ func runScenario(w *World, rng *Rng, s *Scenario, maxSteps int) *runResult {
 						e.drive(2)
 					}
 				}
+			}
+		}
+		if s.staleEv || s.window {
+			dirPhase = e.directedRetryRace(s, dirPhase, kp)
+		}
+		if s.cmdCrash && dirPhase == 0 && !e.anyIns(hasCmd) && len(e.aliveTaskIns()) == 0 && len(e.liveGates()) == 0 {
+			if f := e.tasksWithStatus("failed"); len(f) > 0 {
+				dirPhase = 1
+				beat()
+				ids := f
+				e.spawn(6, "retry-cmdcrash", func() string {
+					if err := mod.GetCommander().RetryTask(ids); err != nil {
+						return "err"
+					}
+					return "ok"
+				})
+				e.settle()
+				e.drive(6)
+				par := e.par
+				e.spawn(2, "watchCmd", func() string {
+					if err := par.VerifWatchCmd(); err != nil {
+						return "err"
+					}
+					return "ok"
+				})
+				e.settle()
+				// the command watcher runs until its re-arming write has been applied; then the worker dies
+				for i := 0; i < 20; i++ {
+					stop := false
+					for _, g := range e.liveGates() {
+						if g.origin == 2 && g.kind == "store" && strings.HasPrefix(g.desc, "PatchDagIns:") {
+							stop = true
+						}
+					}
+					if stop || !e.step(func(g *gate) bool { return g.origin == 2 && g.kind == "store" }) {
+						break
+					}
+				}
+				e.crash()
+				must(kp.VerifHeartBeat())
+				e.startIncarnation(s.execWorkers, s.parserWorkers, 30*time.Second)
+				e.settle()
+				e.drive(7)
+				par = e.par
+				e.spawn(2, "watchCmd", func() string {
+					if err := par.VerifWatchCmd(); err != nil {
+						return "err"
+					}
+					return "ok"
+				})
+				e.settle()
+				e.drive(2)
 			}
 		}
 		if s.dupPush && s.retries > 0 && !closed && !e.anyIns(hasCmd) {
@@ -1139,4 +1216,100 @@ func runEngine(cfg *runCfg) {
 	}
 	meta.Cases = cw.N
 	meta.Write(cfg.meta)
+}
+
+// directedRetryRace drives the two retry-command races (kinds staleev, window); it returns the next phase.
+func (e *Engine) directedRetryRace(s *Scenario, phase int, kp interface{ VerifHeartBeat() error }) int {
+	taskDocs := func() []bsonD { return e.dump("task_instance") }
+	retry := func(id string) {
+		must(kp.VerifHeartBeat())
+		ids := []string{id}
+		e.spawn(6, "retry-directed", func() string {
+			if err := mod.GetCommander().RetryTask(ids); err != nil {
+				return "err"
+			}
+			return "ok"
+		})
+		e.settle()
+		e.drive(6)
+		if e.anyIns(hasCmd) {
+			par := e.par
+			e.spawn(2, "watchCmd", func() string {
+				if err := par.VerifWatchCmd(); err != nil {
+					return "err"
+				}
+				return "ok"
+			})
+			e.settle()
+			e.drive(2)
+		}
+	}
+	switch phase {
+	case 0:
+		if s.window {
+			// park the failing run of some task right after its 'failed' write was applied
+			e.replyHold = func(desc string) bool {
+				return strings.HasPrefix(desc, "PatchTaskIns:") && strings.HasSuffix(desc, ":failed") && e.dirTarget == ""
+			}
+			e.hold = func(g *gate) bool { return g.kind == "reply" }
+			for _, g := range e.liveGates() {
+				if g.kind == "reply" {
+					e.dirTarget = strings.Split(g.desc, ":")[2]
+					return 1
+				}
+			}
+			return 0
+		}
+		// staleev: hold the parser worker on a verdict patch of one instance
+		for _, g := range e.liveGates() {
+			if g.kind == "store" && g.origin == 0 && strings.HasPrefix(g.desc, "PatchDagIns:") && strings.HasSuffix(g.desc, ":failed") {
+				held := g.id
+				e.dirHeldIns = strings.Split(g.desc, ":")[1]
+				e.hold = func(x *gate) bool { return x.id == held }
+				return 1
+			}
+		}
+		return 0
+	case 1:
+		if s.window {
+			retry(e.dirTarget)
+			e.hold = nil // the held run goes on: de-registration, completion event
+			return 3
+		}
+		// a failed task of another instance whose run is over: its completion event waits behind the held worker
+		for _, d := range taskDocs() {
+			if docStr(d, "status") == "failed" && docStr(d, "dagInsId") != e.dirHeldIns {
+				alive := false
+				for _, a := range e.aliveTaskIns() {
+					if a == docStr(d, "_id") {
+						alive = true
+					}
+				}
+				if !alive {
+					e.dirTarget = docStr(d, "_id")
+					retry(e.dirTarget)
+					return 2
+				}
+			}
+		}
+		return 1
+	case 2:
+		// the retried run goes on (retry hook, 'init' stored, second event queued); then the worker is let go
+		for _, d := range taskDocs() {
+			if docStr(d, "_id") == e.dirTarget && docStr(d, "status") == "init" {
+				alive := false
+				for _, a := range e.aliveTaskIns() {
+					if a == e.dirTarget {
+						alive = true
+					}
+				}
+				if !alive {
+					e.hold = nil
+					return 3
+				}
+			}
+		}
+		return 2
+	}
+	return phase
 }
